@@ -32,6 +32,10 @@ type c01Out struct {
 	Ok     bool   `json:"ok"`
 	ErrCls string `json:"err,omitempty"`
 	Ops    int64  `json:"ops"`
+	// the JSON observer was skipped: tree unfolding of the variables (nodes) vs distinct containers (recorded finding
+	// json-of-shared-structure-is-its-tree-unfolding); 0 = observed
+	JSONSkipTree  float64 `json:"json_skip_tree,omitempty"`
+	JSONSkipGraph int     `json:"json_skip_graph,omitempty"`
 }
 
 func innermostFrame(stack string) string {
@@ -109,6 +113,10 @@ func init() {
 				guarded("asm", &o, func() { _ = vm.GetAsmText() })
 				guarded("json", &o, func() {
 					if vm.Attrs != nil {
+						if tree, graph := attrsTreeSize(vm.Attrs); tree > 2e6 && graph <= 5000 {
+							o.JSONSkipTree, o.JSONSkipGraph = tree, graph
+							return
+						}
 						_, _ = vm.Attrs.ToJSON()
 					}
 				})
